@@ -83,7 +83,7 @@ CHECKS = {
     },
 }
 FWD_Q = ["interval", "sdbm", "soct", "ric", "term_int", "bool_int"]
-HIST_Q = ["interval", "sdbm", "soct", "ric", "term_int", "bool_int"]
+HIST_Q = ["interval", "sdbm", "soct", "ric", "term_int", "bool_int", "pack_sdbm"]
 HISTG_Q = ["interval", "sdbm", "bool_int"]
 PROG_ASSUME = ["concrete semantics of DESIGN.md section 2.3: mathematical integers, truncating sdiv/srem, udiv/urem/lshr only on non-negative operands, "
                "shifts by 0..64, zext only of values in [0,2^w); executions leaving this model are truncated and counted, never judged",
@@ -111,7 +111,8 @@ CHECKS["C02"] = {
     "min_nontrivial_frac": 0.03,
 }
 CHECKS["C03"] = {
-    "jobs": [job("h_hist-" + d, 2000, 2, 40000, 4, fuzz_secs=300, fuzz_procs=2, env={"VERIF_TAPE_SCALE": "12"}) for d in HIST_Q],
+    "jobs": [job("h_hist-" + d, 4000, 2, 40000, 4, fuzz_secs=300, fuzz_procs=2, env={"VERIF_TAPE_SCALE": "12"}) for d in HIST_Q] +
+            [job("h_hist-" + d, 4000, 2, 40000, 4, env={"VERIF_TAPE_SCALE": "12"}) for d in ["interval", "sdbm", "soct"]],
     "rule": "operation histories of 3-40 steps over 6 abstract values and 2-5 ints (+64-bit int, booleans for boolean domains, 3 fresh names): assign, "
             "arithmetic/bitwise/cast apply, select, assume (1-2 constraints, non-unit coefficients, ==, !=, <), boolean operations, weak_assign, "
             "forget/project/rename/expand, join, meet, widening (with thresholds), narrowing of decreasing pairs, copies, queries; every value "
